@@ -86,15 +86,17 @@ package rules
 //@   ensures ret1 == nil ==> ret0 != nil
 
 //@ iface (subjectCreator).IsFallbackOnErrorAllowed
+//@   props C04
 //@   pure
-//@   ensures ret0 == fallback(recv)
+//@   defines fallback(recv)
 
 //@ iface (subjectHandler).Execute
 //@   logged step
 
 //@ iface (subjectHandler).ContinueOnError
+//@   props C01
 //@   pure
-//@   ensures ret0 == continueOnError(recv)
+//@   defines continueOnError(recv)
 
 //@ iface (subjectHandler).ID
 //@   pure
@@ -131,3 +133,68 @@ package rules
 //@   ensures ret0 != nil ==> step.n > old(step.n) && ret0 == step.ret0[step.n-1] && !continueOnError(step.arg0[step.n-1])
 //@   loop 0 invariant step.n == old(step.n) + idx + 1 && idx + 1 <= len(cm)
 //@   loop 0 invariant forall k int :: old(step.n) <= k && k < step.n ==> step.arg0[k] == cm[k - old(step.n)] && step.arg2[k] == sub && (step.ret0[k] == nil || continueOnError(step.arg0[k]))
+
+//@ iface (executionCondition).CanExecuteOnSubject
+//@   logged cond
+
+//@ iface (executionCondition).CanExecuteOnError
+//@   logged condErr
+
+// C01: a step with an `if` runs its mechanism exactly when the condition evaluated to true; it is
+// skipped (success, nothing run) when it evaluated to false; a condition that cannot be evaluated is
+// an error of the step and the mechanism is not run.
+//@ func (*conditionalSubjectHandler).Execute
+//@   props C01
+//@   ensures cond.n == old(cond.n) + 1 && cond.arg0[old(cond.n)] == old(h.c) && cond.arg2[old(cond.n)] == sub
+//@   ensures cond.ret1[old(cond.n)] != nil ==> ret0 != nil && step.n == old(step.n)
+//@   ensures cond.ret1[old(cond.n)] == nil && !cond.ret0[old(cond.n)] ==> ret0 == nil && step.n == old(step.n)
+//@   ensures cond.ret1[old(cond.n)] == nil && cond.ret0[old(cond.n)] ==> step.n == old(step.n) + 1 && step.arg0[old(step.n)] == old(h.h) && step.arg2[old(step.n)] == sub && ret0 == step.ret0[old(step.n)]
+
+//@ func (*celExecutionCondition).CanExecuteOnSubject
+//@   props C01
+//@   ensures eval.n == old(eval.n) + 1
+//@   ensures eval.ret0[old(eval.n)] == nil ==> ret0 && ret1 == nil
+//@   ensures eval.ret0[old(eval.n)] != nil && isEvalError(eval.ret0[old(eval.n)]) ==> !ret0 && ret1 == nil
+//@   ensures eval.ret0[old(eval.n)] != nil && !isEvalError(eval.ret0[old(eval.n)]) ==> ret1 != nil
+
+//@ func (*celExecutionCondition).CanExecuteOnError
+//@   props C01
+//@   ensures eval.n == old(eval.n) + 1
+//@   ensures eval.ret0[old(eval.n)] == nil ==> ret0 && ret1 == nil
+//@   ensures eval.ret0[old(eval.n)] != nil && isEvalError(eval.ret0[old(eval.n)]) ==> !ret0 && ret1 == nil
+//@   ensures eval.ret0[old(eval.n)] != nil && !isEvalError(eval.ret0[old(eval.n)]) ==> ret1 != nil
+
+// C01: an error handler that reports success has recorded a non-nil pipeline error on ctx (last).
+// Proved for every implementation (default, redirect, www-authenticate, conditional wrapper).
+//@ iface (errorHandler).Execute
+//@   props C01
+//@   logged ehl
+//@   requires causeErr != nil
+//@   ensures ret0 == nil ==> spe.n > old(spe.n) && spe.arg0[spe.n-1] == ctx && spe.arg1[spe.n-1] != nil
+
+// no error handler can turn a failed pipeline into a positive answer: either the error comes back,
+// or a non-nil pipeline error sits on ctx.
+//@ func (compositeErrorHandler).Execute
+//@   props C01
+//@   requires exErr != nil
+//@   ensures ret0 == nil ==> spe.n > old(spe.n) && spe.arg0[spe.n-1] == ctx && spe.arg1[spe.n-1] != nil
+//@   ensures ehl.n == old(ehl.n) ==> ret0 == exErr
+//@   ensures (forall k int :: old(ehl.n) <= k && k < ehl.n ==> ehl.ret0[k] != nil && Is(ehl.ret0[k], errErrorHandlerNotApplicable)) ==> ret0 == exErr
+//@   loop 0 invariant forall k int :: old(ehl.n) <= k && k < ehl.n ==> ehl.ret0[k] != nil && Is(ehl.ret0[k], errErrorHandlerNotApplicable)
+//@   loop 0 invariant ehl.n >= old(ehl.n)
+
+// C01 at rule level (see iface rule.Rule.Execute). own stages are immutable after construction.
+//@ func (*ruleImpl).Execute
+//@   props C01
+//@   requires len(r.sc) > 0
+//@   ensures ret1 != nil ==> ret0 == nil
+//@   ensures ret1 == nil ==> (spe.n > old(spe.n) && spe.arg0[spe.n-1] == ctx && spe.arg1[spe.n-1] != nil) || (auth.n > old(auth.n) && auth.ret1[auth.n-1] == nil && step.n == old(step.n) + len(r.sh) + len(r.fi) && forall k int :: old(step.n) <= k && k < step.n ==> step.ret0[k] == nil || continueOnError(step.arg0[k]))
+//@   ensures forall k int :: old(step.n) <= k && k < step.n && k - old(step.n) < len(r.sh) ==> step.arg0[k] == r.sh[k - old(step.n)]
+//@   ensures ret0 != nil ==> auth.n > old(auth.n) && auth.ret1[auth.n-1] == nil && step.n == old(step.n) + len(r.sh) + len(r.fi)
+
+// a request is executed only against a rule the repository returned; no rule, no execution.
+//@ func (*ruleExecutor).Execute
+//@   props C01
+//@   ensures find.n == old(find.n) + 1 && find.arg1[old(find.n)] == ctx
+//@   ensures find.ret1[old(find.n)] != nil ==> ret1 == find.ret1[old(find.n)] && ret0 == nil && rex.n == old(rex.n)
+//@   ensures find.ret1[old(find.n)] == nil ==> rex.n == old(rex.n) + 1 && rex.arg0[old(rex.n)] == find.ret0[old(find.n)] && rex.arg1[old(rex.n)] == ctx && ret1 == rex.ret1[old(rex.n)] && ret0 == rex.ret0[old(rex.n)]
